@@ -425,7 +425,7 @@ theorem registers_append (r : String) (a b : List MOp) :
   simp [registers, List.contains_eq_mem, List.mem_append]
 
 /-- one loop-nest call keeps the session invariant and accounts for the row it may add -/
-theorem step_inv {p r ty : String} {F0 : List Row} {h : Nat} {reg : Bool} {op : MOp} {s s' : MState} {x : Ret}
+theorem step_inv {p r ty : String} {F0 : List Row} {h : Nat} {reg : Bool} {op : MOp} {s s' : MState} {x : MRet}
     (hs : SInv p s) (hc : CntInv p r ty F0 h reg s) (hb : op.inBody = true) (hstep : step op s = some (x, s')) :
     SInv p s' ∧ CntInv p r ty F0 (h + nUse r ty [op]) (reg || op == .registerRank r) s' := by
   have hreg0 : ∀ o : MOp, (∀ q, o ≠ .registerRank q) → (reg || o == .registerRank r) = reg := by
@@ -544,7 +544,7 @@ theorem step_inv {p r ty : String} {F0 : List Row} {h : Nat} {reg : Bool} {op : 
   | associateShape a => simp [MOp.inBody] at hb
 
 theorem body_inv {p r ty : String} {F0 : List Row} {body : List MOp} :
-    ∀ {h : Nat} {reg : Bool} {s s' : MState} {rs : List Ret}, SInv p s → CntInv p r ty F0 h reg s →
+    ∀ {h : Nat} {reg : Bool} {s s' : MState} {rs : List MRet}, SInv p s → CntInv p r ty F0 h reg s →
       (∀ op ∈ body, op.inBody = true) → runOps body s = some (rs, s') →
       SInv p s' ∧ CntInv p r ty F0 (h + nUse r ty body) (reg || registers r body) s' := by
   induction body with
@@ -738,7 +738,7 @@ theorem mTrace_decl {p : String} {fs0 : FS} {s s' : MState} {k : TKey} (hd : Dec
   · cases h
 
 theorem decls_inv {p : String} {fs0 : FS} (keys : List TKey) :
-    ∀ {s s' : MState} {rs : List Ret}, DeclInv p fs0 s →
+    ∀ {s s' : MState} {rs : List MRet}, DeclInv p fs0 s →
       runOps (keys.map (fun k => MOp.trace k.1 k.2 false)) s = some (rs, s') →
       DeclInv p fs0 s' ∧ (∀ k ∈ keys, dhas s'.traces k = true) ∧
       (∀ k', dhas s.traces k' = true → dhas s'.traces k' = true) := by
@@ -763,7 +763,7 @@ theorem decls_inv {p : String} {fs0 : FS} (keys : List TKey) :
     · exact hmono _ hk1
     · exact hall k' hk'
 
-theorem open_inv {p : String} {keys : List TKey} {s0 s : MState} {rs : List Ret}
+theorem open_inv {p : String} {keys : List TKey} {s0 s : MState} {rs : List MRet}
     (h : runOps (openOps p keys) s0 = some (rs, s)) :
     DeclInv p s0.fs s ∧ ∀ k ∈ keys, dget s.traces k = some freshTrace := by
   unfold openOps at h
@@ -781,7 +781,7 @@ theorem open_inv {p : String} {keys : List TKey} {s0 s : MState} {rs : List Ret}
     rw [hf]
 
 /-- the whole structured session, seen from one declared trace -/
-theorem session_inv {p : String} {keys : List TKey} {body : List MOp} {s0 s' : MState} {rs : List Ret}
+theorem session_inv {p : String} {keys : List TKey} {body : List MOp} {s0 s' : MState} {rs : List MRet}
     (hbody : ∀ op ∈ body, op.inBody = true)
     (hrun : runOps (openOps p keys ++ body ++ [.endCollect]) s0 = some (rs, s'))
     {r ty : String} (hk : (r, ty) ∈ keys) :
